@@ -15,8 +15,8 @@ def exc_family():
     ct = SRC.class_table()
     bad = []
     for name, ci in ct.classes.items():
-        if ci.rel is None:
-            continue
+        if ci.rel is None or not ci.rel.startswith('mitxgraders/'):
+            continue          # (the class table also holds the vendored voluptuous classes: not library exceptions)
         if ct.is_subclass(name, 'Exception') and not ct.is_subclass(name, 'MITxError') and name not in ('Retry', 'UnsolvableMatrix'):
             bad.append('%s (%s)' % (name, ci.rel))
     return (not bad, 'exception classes outside the MITxError family: ' + ', '.join(bad) if bad else 'all %d library exception classes derive from MITxError' % len(
